@@ -569,6 +569,33 @@ def run(prog, rep, tier):
     for s_ in _sub.rules.get("R11.5", {}).get("samples", []):
         rep.examined(R35, str(s_)[:70], sample=s_)
 
+    # ------------------------------------------------------------ R3.8 the search functions classify through the window predicates only
+    # The three searches for the first message at or after --dt-after (dispatcher, binary search for
+    # plain files, linear search for streamed/compressed files) must agree on what "at or after" means.
+    # They do as long as each decides through the shared classification helpers, whose tables R3.1
+    # decides; a datetime comparison written out inside one of them (`dt <= filter`) can disagree at
+    # equality with its sibling.  No direct ordering comparison of datetimes may appear in them.
+    R38 = rep.rule("R3.8", "the --dt-after searches compare datetimes only through the window predicates (sibling agreement)")
+    SRq = "s4lib::readers::syslinereader::SyslineReader::"
+    for fn_ in ("find_sysline_at_datetime_filter", "find_sysline_at_datetime_filter_binary_search", "find_sysline_at_datetime_filter_linear_search"):
+        sb_ = prog.body(SRq + fn_)
+        direct = []
+        helpers = 0
+        for c in sb_.live_calls():
+            last = (c.o or c.d).split("::")[-1]
+            if last in ("dt_after_or_before", "sysline_dt_after_or_before", "dt_pass_filters", "sysline_pass_filters") or c.d.endswith("find_sysline_at_datetime_filter_binary_search") or c.d.endswith("find_sysline_at_datetime_filter_linear_search"):
+                helpers += 1
+            if last in ("lt", "le", "gt", "ge", "cmp", "partial_cmp", "eq", "ne", "max", "min"):
+                st_ = str(c.callee.get("self") or "") + " " + " ".join(str(sb_.local_ty(op_local(a))) for a in c.args if op_local(a) is not None)
+                if "DateTime" in st_:
+                    direct.append((last, c.line))
+        rep.examined(R38, SRq + fn_, sample={"fn": fn_, "classification_calls": helpers, "direct_datetime_comparisons": direct})
+        if direct:
+            rep.violation(R38, SRq + fn_ + "|direct-comparison", "%s compares datetimes directly (%s at line %d) instead of through the window predicates; its answer at equality can differ from the sibling search "
+                          "(plain files take the binary search, compressed files the linear one), so messages stamped exactly at --dt-after appear for one kind of file and not for the other" % (fn_, direct[0][0], direct[0][1]))
+        if helpers == 0 and not direct:
+            raise CheckerError("%s: no classification call (idiom not recognised)" % fn_)
+
     # ------------------------------------------------------------ R3.7 each bound goes to the predicate written for it
     # dt_after_or_before(dt, f) classifies against the *lower* bound: equality means "at or after", which
     # is inside the window.  Handing it the upper bound makes the upper bound exclusive (a message
